@@ -421,6 +421,9 @@ func (c *converter) syncIngressHTTP(source *annotations.Source, ing *networking.
 			err = c.addDefaultHostBackend(source, ing.Namespace+"/"+svcName, svcPort, annHost, annBack)
 		}
 		if err != nil {
+			// the declaration starts to be valid if the current owner of the default host
+			// leaves, and the backend it uses needs to be changed as well at that moment
+			c.trackRefusedBackend(source, ing.Namespace, ing.Spec.DefaultBackend)
 			c.logger.Warn("skipping default backend of %v: %v", source, err)
 		}
 	}
